@@ -53,5 +53,8 @@ def run_digest(tr):
         h.update(_b(obj.feed_used.kcals))
         h.update(_b(obj.grass_used.kcals))
     parts["herd_trajectories"] = h.hexdigest()[:16]
+    if getattr(tr, "returned_countries", None) is not None:
+        # which countries the call handed back (a run hands back its own selection, whatever the runner served before)
+        parts["returned_countries"] = ",".join(tr.returned_countries)
     full = hashlib.sha256(repr(sorted(parts.items())).encode()).hexdigest()[:20]
     return full, parts
